@@ -339,6 +339,29 @@ def shard_notes(arg):
     return acc
 
 
+def shard_onset_tolerances(arg):
+    """One reference note, one estimated note whose onset distance is k ms (and one 0.1 ms tick either side), for
+    every tolerance on the millisecond lattice: the documented rule compares the distance rounded to 4 decimals with
+    the tolerance itself, whatever the tolerance's own decimal expansion looks like in binary."""
+    acc = core.Acc(PID)
+    for k in arg:
+        t = k / 1000.0
+        for b in (0.0, 1.0):
+            for dk in (-1, 0, 1):
+                d = (10 * k + dk) / 10000.0
+                ref = ((b, b + 1.0, 440.0),)
+                for est in (((b + d, b + d + 1.0, 440.0),), ((b + d, b + d + 1.0, 440.0), (b + 2 * t + 0.01, b + 3.0, 440.0))):
+                    for tol, strict in ((t, False), (t, True), (t + 5e-5, True), (t + 5e-5, False)):
+                        acc.states += 1
+                        acc.nontrivial += 1
+                        if dk == 0 and tol == t:
+                            acc.counters["notes.onset_distance_exactly_tolerance"] += 1
+                        for fn in ("match_note_onsets", "match_notes"):
+                            check_notes(acc, fn, ref, est, tol, 50.0, None, 0.05, strict)
+                            check_notes(acc, fn, est, ref, tol, 50.0, None, 0.05, strict)
+    return acc
+
+
 def shard_velocity(arg):
     refs, ests = arg
     acc = core.Acc(PID)
@@ -479,6 +502,12 @@ def run(run):
         ms6 = list(lib.multisets(pts6, 4))
         run.explore("events<=4 over 6pts", mod, "shard_events",
                     [(ch, ms6, windows, "rev", False) for ch in core.chunks(ms6, 32)])
+    # (2a) dense clusters: 5-6 events on each side over 4 adjacent lattice points, so that one estimate can see five or
+    # more references inside a single window (candidate lists longer than any of the spaces above produce)
+    pts4 = [float(base + Fr(k, 16)) for k in (0, 1, 2, 3)]
+    md = list(lib.multisets(pts4, 7 if thorough else 6, 5))
+    run.explore("dense events 5-%d over 4pts" % (7 if thorough else 6), mod, "shard_events",
+                [(ch, md, windows, "rev", False) for ch in core.chunks(md, 32)])
     # (2b) one side integer-typed (whole seconds), the other on the quarter-second lattice
     zi = list(lib.multisets([float(ph + k) for k in (0, 1, 2)], 3))
     zf = list(lib.multisets([ph + k / 4.0 for k in (0, 1, 2, 3, 4, 6)], 3))
@@ -499,6 +528,8 @@ def run(run):
         n3 = list(lib.multisets(notes, 3, 3))
         run.explore("notes 3 x <=2", mod, "shard_notes", [(ch, nsets, tier) for ch in core.chunks(n3, 64)])
         run.explore("notes <=2 x 3", mod, "shard_notes", [(nsets, ch, tier) for ch in core.chunks(n3, 64)])
+    ks = list(range(1, 151))
+    run.explore("onset distance == tolerance, 1..150 ms", mod, "shard_onset_tolerances", core.chunks(ks, 16))
     vnotes = [n for n in notes if n[0] in (0.0, 0.05) and n[1] - n[0] < 0.3 and n[2] in (notes[0][2], notes[1][2])]
     vsets = list(lib.multisets(vnotes, 2))
     run.explore("velocity-notes<=2", mod, "shard_velocity", [(ch, vsets) for ch in core.chunks(vsets, 32)])
